@@ -317,6 +317,11 @@ fn fill(tier: Tier, acc: &mut Acc) {
             }
         }
     }
+    // every statement alternative (with minimal fillers) in every statement hole of every alternative
+    let stmt_leaves: Vec<(String, Frag)> = salts.iter().map(|a| (a.name.clone(), build_s(a, None))).collect();
+    for (n, f) in stmt_chains(&salts, &simples, 1, &stmt_leaves) {
+        acc.add("C1s", n, in_func(f));
+    }
     // every statement alternative alone (incl. those without statement holes)
     for a in &salts {
         for (kn, kw) in &fk {
